@@ -350,6 +350,26 @@ sexp sexp_read_bignum (sexp ctx, sexp in, sexp_uint_t init,
     res = sexp_bignum_normalize(res);
     res = sexp_make_ratio(ctx, res, SEXP_ONE);
     sexp_ratio_denominator(res) = sexp_read_number(ctx, in, 10, 0);
+#if SEXP_USE_COMPLEX
+    if (sexp_complexp(sexp_ratio_denominator(res))) { /* NNN/DDD+IIIi or NNN/DDDi */
+      imag = sexp_ratio_denominator(res);
+      if (sexp_complex_real(imag) == SEXP_ZERO) {
+        sexp_ratio_denominator(res) = sexp_complex_imag(imag);
+        res = sexp_ratio_normalize(ctx, res, in);
+        if (!sexp_exceptionp(res)) {
+          sexp_complex_imag(imag) = res;
+          res = imag;
+        }
+      } else {
+        sexp_ratio_denominator(res) = sexp_complex_real(imag);
+        res = sexp_ratio_normalize(ctx, res, in);
+        if (!sexp_exceptionp(res)) {
+          sexp_complex_real(imag) = res;
+          res = imag;
+        }
+      }
+    } else
+#endif
     res = sexp_ratio_normalize(ctx, res, in);
 #endif
 #if SEXP_USE_COMPLEX
